@@ -549,6 +549,13 @@ func main() {
 	add(sec(5), false, "corpus", C(netE), C(netE), C(netE), C(ok), T(bto-time.Second), C(ok), T(2*time.Second), C(ok)) // breaker short-circuits, then lets a probe through
 	add(sec(5), false, "corpus", C(netE), C(netE), C(netE), T(bto+time.Second), C(unavail), C(ok), T(bto+time.Second), C(ok))
 	add(sec(5), false, "corpus", S(ok), S(ok), T(sec(4.5)), S(netE), T(sec(1)), S(netE))                             // scheduler skips what is not due
+	// intervals above the 60 s cap: the scheduler comes back when the (capped) record says so, not an interval later
+	for _, iv := range []float64{120, 300, 61} {
+		add(sec(iv), false, "corpus", S(ok), T(sec(iv+1)), S(netE), T(sec(61)), S(ok), T(sec(iv+1)), S(ok))
+		add(sec(iv), false, "corpus", S(ok), pf, T(sec(61)), S(ok))
+		add(sec(iv), false, "corpus", C(ok), C(netE), T(sec(30)), S(ok), T(sec(31)), S(ok), S(ok))
+		add(sec(iv), false, "corpus", S(unavail), T(sec(61)), S(unavail), T(sec(61)), S(netE), T(sec(61)), S(ok))
+	}
 	add(sec(1), false, "corpus", C(tmoE), C(other), C(199), C(299), C(300), C(ok))
 	add(sec(5), false, "corpus", C(netRetr), C(tmoRetr), C(ok))              // the flavours the client retries (3 attempts each)
 
